@@ -20,3 +20,8 @@ package checker
 //@ func checker.visitor.ClosureNode
 //@   property C04
 //@   requires v != nil && node != nil
+
+// package-level type constants: set once by the package initialiser, never assigned again
+//@ func checker.init
+//@   ensures[interfaceType] interfaceType != nil
+//@   ensures[basic-types] boolType != nil && integerType != nil && floatType != nil && stringType != nil && arrayType != nil && mapType != nil
